@@ -18,6 +18,15 @@
    the harness; time unit = 1 virtual second; all decaying tags are registered
    at creation.
 
+   DURING-TRIM case (testing only, no theorem): a deterministic interleaving
+     2 NP low high grace res ND ND x (interval k min max)  NPRE  NPRE x (op obs)
+       NS  NS x op   obs   then (op obs) repeated
+   after the NPRE sequential steps TrimOpenConns is called and, from inside
+   it (between its candidate snapshot and its selection loop: the fake
+   connections' Stat() is called by the sort), the NS script ops (only ops
+   1..5) are executed synchronously; obs is taken when the trim has returned;
+   the case then continues sequentially.
+
    CONCURRENT case (testing only, no theorem):
      1 NP low high grace  NPRE op..  NW  (LEN op..) x NW   obs
    a sequential prefix of NPRE ops (same encoding, no observations) connects
@@ -357,9 +366,10 @@ Definition force_tight (cfg : config) (s : astate) (cl : list (nat * nat)) : boo
   let second_pass := (u <? target) && (u <? target - u) in
   second_pass || forallb (fun x : nat * nat => negb (is_prot (a_prot s) (fst x))) cl.
 
-Fixpoint conform_run (cfg : config) (np : nat) (s : state) (i : Z) (tr : list (op * obs)) : list Z :=
+Fixpoint conf_prefix (cfg : config) (np : nat) (s : state) (i : Z) (tr : list (op * obs))
+  : (state * Z) + list Z :=
   match tr with
-  | [] => []
+  | [] => inl (s, i)
   | (o, x) :: r =>
       let '(s', cl) := step isort cfg s o in
       let closed_ok :=
@@ -368,9 +378,78 @@ Fixpoint conform_run (cfg : config) (np : nat) (s : state) (i : Z) (tr : list (o
         | ForceTrim => force_prop cfg (abs s) (o_closed x) && force_tight cfg (abs s) (o_closed x)
         | _ => is_nil (o_closed x)
         end in
-      if negb closed_ok then [ERR_MISMATCH; i; 1; zlen (o_closed x); zlen cl]
-      else if negb (obs_state_eqb (mobs np s' []) x) then [ERR_MISMATCH; i; 2; count s'; o_count x]
-      else conform_run cfg np s' (i + 1) r
+      if negb closed_ok then inr [ERR_MISMATCH; i; 1; zlen (o_closed x); zlen cl]
+      else if negb (obs_state_eqb (mobs np s' []) x) then inr [ERR_MISMATCH; i; 2; count s'; o_count x]
+      else conf_prefix cfg np s' (i + 1) r
+  end.
+
+Definition conform_run (cfg : config) (np : nat) (s : state) (i : Z) (tr : list (op * obs)) : list Z :=
+  match conf_prefix cfg np s i tr with inl _ => [] | inr d => d end.
+
+(* ---- during-trim events ----------------------------------------------------------------- *)
+Definition worker_op_ok (o : op) : bool :=
+  match o with
+  | Connected _ _ | Disconnected _ _ | TagPeer _ _ _ | UntagPeer _ _ | UpsertTag _ _ _ => true
+  | _ => false
+  end.
+
+Definition arun (cfg : config) (s : astate) (ops : list op) : astate := fold_left (astep cfg) ops s.
+
+(* the trim took its candidates before the script ran: every closed
+   connection belongs to a peer that was eligible then (protection does not
+   change during the script) and is tracked before or after the script *)
+Definition during_closed_ok (cfg : config) (a0 a1 : astate) (cl : list (nat * nat)) : bool :=
+  forallb (fun x : nat * nat =>
+             eligible cfg a0 (fst x)
+             && (memn (snd x) (a_conns (ap_at a0 (fst x))) || memn (snd x) (a_conns (ap_at a1 (fst x))))) cl.
+
+Fixpoint mon_prefix (cfg : config) (np : nat) (s : astate) (i : Z) (tr : list (op * obs))
+  : (astate * Z) + list Z :=
+  match tr with
+  | [] => inl (s, i)
+  | (o, x) :: r =>
+      match mon_step cfg np s o x with
+      | inl s' => mon_prefix cfg np s' (i + 1) r
+      | inr code => inr [ERR_PROPERTY; i; code]
+      end
+  end.
+
+(* judged at quiescence: the count and every tag total are what the prefix
+   and the script imply, whatever the trim did in between *)
+Definition monitor_during (cfg : config) (np : nat) (pre : list (op * obs)) (script : list op)
+           (x : obs) (post : list (op * obs)) : list Z :=
+  match mon_prefix cfg np (ainit cfg) 0 pre with
+  | inr d => d
+  | inl (a0, i) =>
+      let a1 := arun cfg a0 script in
+      if negb (during_closed_ok cfg a0 a1 (o_closed x)) then [ERR_PROPERTY; i; 11] else
+      let a2 := forget_pruned np a1 x in
+      if negb (o_count x =? acount a2) then [ERR_PROPERTY; i; 3]
+      else if negb (list_eqb pobs_eqb (o_peers x) (map (expect_peer a2) (seq 0 np))) then [ERR_PROPERTY; i; 4]
+      else mon_run cfg np a2 (i + 1) post
+  end.
+
+(* the model: the script's ops applied, then the temporary entries the
+   implementation reports as pruned are pruned (which ones depends on the sort
+   order seen by the racing comparator) *)
+Definition prune_observed (np : nat) (s : state) (x : obs) : state :=
+  fold_left (fun s' p =>
+               let pi := peer_at s' p in
+               if p_tracked pi && p_temp pi && is_nil (p_conns pi)
+                  && negb (fst (fst (nth p (o_peers x) (true, 0, 0))))
+               then set_peer s' p nopeer else s')
+            (seq 0 np) s.
+
+Definition conform_during (cfg : config) (np : nat) (pre : list (op * obs)) (script : list op)
+           (x : obs) (post : list (op * obs)) : list Z :=
+  match conf_prefix cfg np (init cfg) 0 pre with
+  | inr d => d
+  | inl (s0, i) =>
+      let s1 := run isort cfg s0 script in
+      if negb (during_closed_ok cfg (abs s0) (abs s1) (o_closed x)) then [ERR_MISMATCH; i; 1; zlen (o_closed x); 0] else
+      let s2 := prune_observed np s1 x in
+      if negb (obs_state_eqb (mobs np s2 []) x) then [ERR_MISMATCH; i; 2; count s2; o_count x]
+      else conform_run cfg np s2 (i + 1) post
   end.
 
 (* ---- wire decoding ------------------------------------------------------------------- *)
@@ -520,12 +599,6 @@ Fixpoint decode_workers (n : nat) (l : list Z) : option (list (list op) * list Z
       end
   end.
 
-Definition worker_op_ok (o : op) : bool :=
-  match o with
-  | Connected _ _ | Disconnected _ _ | TagPeer _ _ _ | UntagPeer _ _ | UpsertTag _ _ _ => true
-  | _ => false
-  end.
-
 Definition decode_conc (l : list Z) : option (config * nat * list op * list (list op) * obs) :=
   match l with
   | 1 :: np :: low :: high :: grace :: npre :: r =>
@@ -548,7 +621,6 @@ Definition decode_conc (l : list Z) : option (config * nat * list op * list (lis
   | _ => None
   end.
 
-Definition arun (cfg : config) (s : astate) (ops : list op) : astate := fold_left (astep cfg) ops s.
 
 (* at quiescence count and totals are what the operations imply, whatever the
    interleaving with the trims was; no connection of a peer that was protected
@@ -565,12 +637,67 @@ Definition conform_conc (cfg : config) (np : nat) (pre : list op) (ws : list (li
   let s1 := run isort cfg (run isort cfg (init cfg) pre) (concat ws) in
   if obs_state_eqb (mobs np s1 []) x then [] else [ERR_MISMATCH; 0; 2; count s1; o_count x].
 
+Fixpoint decode_trace_n (n : nat) (np : nat) (l : list Z) : option (list (op * obs) * list Z) :=
+  match n with
+  | O => Some ([], l)
+  | S k =>
+      match decode_op l with
+      | Some (o, r) =>
+          match decode_obs np r with
+          | Some (x, r') =>
+              match decode_trace_n k np r' with
+              | Some (t, r'') => Some ((o, x) :: t, r'')
+              | None => None
+              end
+          | None => None
+          end
+      | None => None
+      end
+  end.
+
+Definition decode_during (l : list Z)
+  : option (config * nat * list (op * obs) * list op * obs * list (op * obs)) :=
+  match l with
+  | 2 :: np :: low :: high :: grace :: res :: nd :: r =>
+      if (np <? 0) || (64 <? np) || (nd <? 0) || (16 <? nd) || (res <=? 0) then None else
+      match decode_dtags (znat nd) r with
+      | Some (ds, npre :: r1) =>
+          if (npre <? 0) || (100000 <? npre) then None else
+          match decode_trace_n (znat npre) (znat np) r1 with
+          | Some (pre, ns :: r2) =>
+              if (ns <? 0) || (1000 <? ns) then None else
+              match decode_ops (znat ns) r2 with
+              | Some (script, r3) =>
+                  match decode_obs (znat np) r3 with
+                  | Some (x, r4) =>
+                      match decode_trace (S (length r4)) (znat np) r4 with
+                      | Some post =>
+                          if forallb worker_op_ok script
+                          then Some (mkCfg low high grace res ds, znat np, pre, script, x, post) else None
+                      | None => None
+                      end
+                  | None => None
+                  end
+              | None => None
+              end
+          | _ => None
+          end
+      | _ => None
+      end
+  | _ => None
+  end.
+
 Definition conform_case (l : list Z) : list Z :=
   match l with
   | 1 :: _ =>
       match decode_conc l with
       | Some (cfg, np, pre, ws, x) => conform_conc cfg np pre ws x
       | None => [ERR_MALFORMED; 1]
+      end
+  | 2 :: _ =>
+      match decode_during l with
+      | Some (cfg, np, pre, script, x, post) => conform_during cfg np pre script x post
+      | None => [ERR_MALFORMED; 2]
       end
   | _ =>
       match decode_case l with
@@ -585,6 +712,11 @@ Definition monitor_case (l : list Z) : list Z :=
       match decode_conc l with
       | Some (cfg, np, pre, ws, x) => monitor_conc cfg np pre ws x
       | None => [ERR_MALFORMED; 1]
+      end
+  | 2 :: _ =>
+      match decode_during l with
+      | Some (cfg, np, pre, script, x, post) => monitor_during cfg np pre script x post
+      | None => [ERR_MALFORMED; 2]
       end
   | _ =>
       match decode_case l with
